@@ -21,7 +21,9 @@ def run(run: core.Run, tier: str):
       "PLUS the strengthening families of C01 (per-channel alpha tensors, quantized_relu x is_quantized_clip x "
       "relu_upper_bound x slope judged against the float activation x_u, the module-level _sigmoid switch: "
       "mode at construction x mode at call judged against the surrogate of the CALL-time mode, "
-      "construct-with-decoy-then-assign)")
+      "construct-with-decoy-then-assign, and the histories on ONE object of fixedq_hist: every call of a history "
+      "is judged for nearest / saturate / monotone / idempotent against the format of the attributes the object "
+      "has at THAT call; after _set_trainable_parameter() given the data-dependent scale the object reports)")
   fixedq.compare(run, recs, with_reporters=False)
   for r in recs:
     key0 = r.flags()
@@ -81,7 +83,8 @@ def run(run: core.Run, tier: str):
                                        "x2": str(r.xs[b]), "y2": str(r.ys[b])}, mirrored=r.mirrored)
         break
     # ---- idempotence: linear (any constant scale), quantized_bits, plain ReLU
-    if r.kind in ("qlinear", "qbits") or (r.kind == "qrelu" and not leaky):
+    # (not under a data-dependent scale: re-quantizing the output tensor re-derives the scale)
+    if (r.kind in ("qlinear", "qbits") or (r.kind == "qrelu" and not leaky)) and not r.cfg.get("auto"):
       ys32 = np.array([float(v) for v in r.ys], dtype=np.float32)
       yy = fixedq.fr(r.call(ys32))
       run.evaluations += len(yy)
